@@ -11,7 +11,8 @@ REQUIRED = ['C16t.translated_imps_is_scale', 'C16t.translated_score_to_imp_is_su
 RULE = ('every integer in [-4200, 4200] (all thresholds and all off-grid values), +-10^k and +-2^k up to 10^40 '
         'with +-1 neighbours, seeded random integers of up to 140 bits, and pairs for the two-score form; '
         'distinct = distinct integers / pairs; non-trivial = all (each is one evaluation of the scan)')
-TRUSTED = ['the theorems hold for every Int; the correspondence samples the infinite domain densely around every constant']
+TRUSTED = ['the MiniPy semantics (Model/MiniPy.lean: value semantics, no aliasing) and the code translator (harness/translate_py.py), validated on every run by executing the translated program next to the real code (counters translated_*)',
+           'the theorems hold for every Int; the correspondence samples the infinite domain densely around every constant']
 ASSUMPTIONS = ['CPython int arithmetic (abs, comparison) is exact on unbounded integers']
 KEEP_FIRST = 0
 SHARDS = {'quick': 1, 'thorough': 1}
